@@ -21,7 +21,7 @@ def id_sets():
                       {"ip": "2001:db8::7", "challenge": "tls-alpn-01"}],
         # IPv6 addresses whose text form is short because of zero groups in front: the reverse-DNS name has 32 nibbles all the same
         "ipv6 with leading zero groups": [{"ip": "::1", "challenge": "tls-alpn-01"}, {"ip": "64:ff9b::c000:221", "challenge": "tls-alpn-01"},
-                                          {"ip": "100::1", "challenge": "tls-alpn-01"}, {"ip": "0:0:0:1::2", "challenge": "tls-alpn-01"},
+                                          {"ip": "100::1", "challenge": "tls-alpn-01"}, {"ip": "::1:0:0:0:2", "challenge": "tls-alpn-01"},
                                           {"ip": "fe80::1", "challenge": "tls-alpn-01"}, {"ip": "0.0.0.1", "challenge": "tls-alpn-01"}],
         "name+ip": [{"dns": "n.example.org", "challenge": "tls-alpn-01"}, {"ip": "10.1.2.3", "challenge": "tls-alpn-01"}],
         "sub and parent": [{"dns": "example.org", "challenge": "dns-01"}, {"dns": "*.example.org", "challenge": "dns-01"},
